@@ -541,6 +541,17 @@ EXACT = {
     'std::ops::SubAssign::sub_assign': mk_uint_assign('Sub'), 'std::ops::AddAssign::add_assign': mk_uint_assign('Add'),
 }
 
+def m_raw_storage_set(it, st, args, info):
+    bump(st, '<raw>')
+    eff(st, ('save', '<raw>', key_of(it, st, args[1]), strip_named(it.deref(st, args[2])) if len(args) > 2 else None, None, info['site']))
+    return UNIT
+def m_raw_storage_remove(it, st, args, info):
+    bump(st, '<raw>')
+    eff(st, ('remove', '<raw>', key_of(it, st, args[1]), ('tup', ()), None, info['site']))
+    return UNIT
+EXACT['cosmwasm_std::Storage::set'] = m_raw_storage_set
+EXACT['cosmwasm_std::Storage::remove'] = m_raw_storage_remove
+
 # storage API present in cw_storage_plus but not used today: any other Map/Item method is reported
 STORAGE_PREFIX = ('cw_storage_plus::',)
 
